@@ -334,7 +334,7 @@ func runPathSelInput(rep *Report, in PathSelInput, cf *CaseFile) {
 		fail("C03", "walk-panic", "the traversal panicked", nil, "panic")
 		return
 	}
-	if cfPathLoads != nil && in.Target == 0 && !in.MatchPath && wo.Class != "panic" {
+	if cfPathLoads != nil && (in.Target == 0 || in.Target == 1) && !in.MatchPath && wo.Class != "panic" {
 		// the traversal's own storage requests (up to the match), against the block-level walk of the model
 		dag := dumpDAG(bt.st, bt.cids[in.Tree.ID], map[string]*DNode{})
 		var order []*DNode
@@ -357,7 +357,7 @@ func runPathSelInput(rep *Report, in PathSelInput, cf *CaseFile) {
 			for _, sg := range splitPath(in.Path) {
 				hs = append(hs, fmt.Sprintf("(%s, %s)", coqBytes([]byte(sg)), coqBytes(mhash(sg))))
 			}
-			cfPathLoads.Add(fmt.Sprintf("mk_pload %s %s %s %s", coqBlk(dag), coqBytes([]byte(in.Path)), coqList(hs), coqNList(idx)), in)
+			cfPathLoads.Add(fmt.Sprintf("mk_pload %s %s %s %s %s", coqBlk(dag), coqBytes([]byte(in.Path)), coqList(hs), coqBool(in.Target == 1), coqNList(idx)), in)
 		}
 	}
 	segs := splitPath(in.Path)
